@@ -124,9 +124,39 @@ package dag
 //@ func (*dag).isPresent
 //@   trusted
 //@   benign
+//@ func (*dag).addSingle
+//@   prop C08
+//@   assume-benign
+//@ func (dag).getHighestClockValue
+//@   prop C08
+//@   assume-benign
+//@ func (dag).setHighestClockValue
+//@   prop C08
+//@   assume-benign
+//@ func (dag).getNumberOfTransactions
+//@   prop C08
+//@   assume-benign
+//@ func (dag).setNumberOfTransactions
+//@   prop C08
+//@   assume-benign
+//@ func (dag).setHead
+//@   prop C08
+//@   assume-benign
+// The bookkeeping of dag.add: head, highest clock and transaction count follow the transactions added.
 //@ func (*dag).add
-//@   trusted
-//@   benign
+//@   prop C08
+//@   assume-benign
+//@   axiom forall a, b hash.SHA256Hash :: (forall k int :: 0 <= k && k < 32 ==> a[k] == b[k]) ==> a.Equals(b)
+//@   loop 1 invariant (forall j int :: 0 <= j && j < 32 ==> headRef[j] == 0) || (exists k int :: 0 <= k && k < $i && !isNilIface(transactions[k]) && same(headRef, transactions[k].Ref()) && transactions[k].Clock() == highestLC)
+//@   loop 1 invariant highestLC >= ret(call (dag).getHighestClockValue #1) || (exists k int :: 0 <= k && k < $i && !isNilIface(transactions[k]) && transactions[k].Clock() == 0)
+//@   loop 1 invariant !did(call (*dag).addSingle #1) || isNilIface(ret(call (*dag).addSingle #1))
+//@   call (dag).setHead #1 requires [head-is-an-added-transaction-with-the-highest-clock] $done1
+//@        && (exists k int :: 0 <= k && k < len(transactions) && !isNilIface(transactions[k]) && same(arg(2), transactions[k].Ref()) && transactions[k].Clock() == highestLC)
+//@        && did(call (dag).setHighestClockValue #1) && isNilIface(ret(call (dag).setHighestClockValue #1)) && arg(call (dag).setHighestClockValue #1, 2) == highestLC
+//@   call (dag).setHighestClockValue #1 requires [highest-clock-only-decreases-for-a-root] $done1 && arg(1) == tx
+//@        && (arg(2) >= ret(call (dag).getHighestClockValue #1) || (exists k int :: 0 <= k && k < len(transactions) && !isNilIface(transactions[k]) && transactions[k].Clock() == 0))
+//@   call (dag).setNumberOfTransactions #1 requires [count-grows-by-the-number-of-transactions-added] $done1 && arg(1) == tx
+//@        && arg(2) == ret(call (dag).getNumberOfTransactions #1) + uint64(len(transactions)) && arg(call (dag).getNumberOfTransactions #1, 1) == tx
 //@ func (PayloadStore).writePayload
 //@   trusted
 //@   benign
@@ -146,8 +176,44 @@ package dag
 //@ func (*state).saveEvent
 //@   prop C14
 //@   assume-benign
+// Both digests take in exactly this transaction (reference at its clock), in this write transaction;
+// a failure of either is reported (and rolls the write transaction back in Add).
 //@ func (*state).updateState
+//@   prop C08
 //@   assume-benign
+//@   loop 1 invariant true
+//@   ensures [both-digests-updated-in-this-tx] isNilIface(result) ==> did(call (*treeStore).write #1) && isNilIface(ret(call (*treeStore).write #1)) && did(call (*treeStore).write #2) && isNilIface(ret(call (*treeStore).write #2))
+//@        && arg(call (*treeStore).write #1, 0) == s.ibltTree && arg(call (*treeStore).write #2, 0) == s.xorTree
+//@        && arg(call (*treeStore).write #1, 1) == tx && arg(call (*treeStore).write #2, 1) == tx
+//@        && arg(call (*treeStore).write #1, 2) == transaction && arg(call (*treeStore).write #2, 2) == transaction
+
+//@ func (*atomic.Uint32).Load
+//@   trusted
+//@   benign
+//@ func (*atomic.Uint32).CompareAndSwap
+//@   trusted
+//@   benign
+//@ func (*sync.Mutex).Lock
+//@   trusted
+//@   benign
+//@ func (*sync.Mutex).Unlock
+//@   trusted
+//@   benign
+//@ func (tree.Tree).*
+//@   trusted
+//@   benign
+//@ func (*treeStore).writeWithoutLock
+//@   prop C08
+//@   assume-benign
+
+// The in-memory tree takes in the reference at the transaction's clock, under the store's lock, and the
+// dirty leaves are then written in the caller's transaction.
+//@ func (*treeStore).write
+//@   prop C08
+//@   assume-benign
+//@   call (tree.Tree).Insert #1 requires [reference-at-its-clock-under-the-lock] did(call (*sync.Mutex).Lock #1) && same(arg(1), transaction.Ref()) && arg(2) == transaction.Clock() && arg(0) == store.tree
+//@   ensures [persisted-in-the-callers-tx] did(call (*treeStore).writeWithoutLock #1) && arg(call (*treeStore).writeWithoutLock #1, 1) == tx && result == ret(call (*treeStore).writeWithoutLock #1)
+//@   ensures [lock-released] did(call (*sync.Mutex).Unlock #1)
 //@ func (*state).notify
 //@   assume-benign
 
